@@ -19,6 +19,7 @@
 //   P<o>,<s> o += s (s may be o)   p<o>,<s> o += s.c_str()   a<o>,<cp> o += char32_t(cp)   e<o>,<cp> o += char(cp)
 //   S<o>,<mode>:<hex> o.set(ptr,len,mode)   T<o>,<mode>,<w>:<hex> o.set(utf16/utf32 buffer, mode)   E<o>,<mode>,<w>:<hex> o = ST::string(utf16/32 ptr,len,mode)
 //   U8:<hex> construct the char_buffer in slot 8     b<o>,<mode> o.set(std::move(slot8), mode)   B<o>,<mode> o.set(slot8, mode) (lvalue)
+//   h<o> o = std::move(slot8)   H<o> o = slot8   G<o>,<mode> ST::string(std::move(slot8), mode) into dead slot o   g<o>,<mode> ST::string(slot8, mode)
 //   K<d>,<s>,<name>[,x[,y]]  d (dead slot) = result of const operation <name> on s      (d = 8: char_buffer results)
 //   V<s>,<name>,<x>,<y>:<d1>,<d2>,<d3>   vector-returning operation; the first three pieces are moved into d1..d3
 //   Q<s>,<name>[,x[,y]]   const operation whose result is not a string (discarded)
@@ -246,6 +247,10 @@ static void apply(SPool &P, const std::string &op) {
     case 'U': { std::string b = parse_bytes(tail); arm_now(); new (P.raw[BUFSLOT]) B(b.data(), b.size()); P.live[BUFSLOT] = true; break; }
     case 'b': arm_now(); P.str(o).set(std::move(P.buf(BUFSLOT)), mode_of(f[1][0])); break;
     case 'B': arm_now(); P.str(o).set(static_cast<const B &>(P.buf(BUFSLOT)), mode_of(f[1][0])); break;
+    case 'h': arm_now(); P.str(o) = std::move(P.buf(BUFSLOT)); break;
+    case 'H': arm_now(); P.str(o) = static_cast<const B &>(P.buf(BUFSLOT)); break;
+    case 'G': arm_now(); new (P.raw[o]) ST::string(std::move(P.buf(BUFSLOT)), mode_of(f[1][0])); P.live[o] = true; break;
+    case 'g': arm_now(); new (P.raw[o]) ST::string(static_cast<const B &>(P.buf(BUFSLOT)), mode_of(f[1][0])); P.live[o] = true; break;
     case 'K': const_op(P, o, (int)num(1), f.size() > 2 ? f[2] : "", num(3), num(4)); break;
     case 'V': { std::vector<std::string> ds = splitc(tail, ','); int d[3] = {-1, -1, -1};
                 for (size_t i = 0; i < 3 && i < ds.size(); ++i) if (!ds[i].empty()) d[i] = atoi(ds[i].c_str());
@@ -278,7 +283,8 @@ static bool precheck(SPool &P, const std::string &op) {
     case 'm': return alive(o) && alive(s) && o != s;
     case 'R': case 'a': case 'e': case 'S': case 'T': case 'E': return alive(o);
     case 'U': return o == BUFSLOT && !P.live[BUFSLOT];
-    case 'b': case 'B': return alive(o) && P.live[BUFSLOT];
+    case 'b': case 'B': case 'h': case 'H': return alive(o) && P.live[BUFSLOT];
+    case 'G': case 'g': return dead(o) && P.live[BUFSLOT];
     case 'K': { std::string n = f.size() > 2 ? f[2] : "";
         if (!(o == BUFSLOT ? !P.live[BUFSLOT] : dead(o)) || !alive(s)) return false;
         if (in_list(n, {"trimset", "bfs", "als", "plus", "plusc", "cplus", "ssout", "bf", "af", "bl", "al", "repl", "replci", "replc", "fmtwith"}) && !alive(num(3))) return false;
@@ -438,7 +444,12 @@ static std::string rand_op(Rng &rng, G &g, bool with_throwing) {
         case 26: if (o < 0) continue; return "a" + S(o) + "," + S(rng.chance(1, 2) ? 0x110000 : 0x7FFFFFFF);
         case 27: if (o < 0 || g.live[BUFSLOT]) continue; { static const char *bad[] = {"80", "c3", "41c341", "ff"}; std::string pre = hex_bytes(rand_text(rng, pick_len(rng))); if (pre == "-") pre = "";
                    bool ok = rng.chance(1, 3); g.live[BUFSLOT] = true;
-                   return "U8:" + (ok ? (pre.empty() ? std::string("41") : pre) : pre + bad[rng.below(4)]) + ";" + (rng.chance(2, 3) ? "b" : "B") + S(o) + "," + std::string(1, "ccs"[rng.below(3)]); }
+                   std::string u8 = "U8:" + (ok ? (pre.empty() ? std::string("41") : pre) : pre + bad[rng.below(4)]) + ";";
+                   unsigned w = (unsigned)rng.below(6);
+                   if (w < 2) return u8 + (w ? "b" : "B") + S(o) + "," + std::string(1, "ccs"[rng.below(3)]);
+                   if (w < 4) return u8 + (w == 2 ? "h" : "H") + S(o);
+                   if (d < 0) continue;
+                   return u8 + (w == 4 ? "G" : "g") + S(d) + "," + std::string(1, "ccs"[rng.below(3)]); }
         case 28: if (g.live[BUFSLOT]) { g.live[BUFSLOT] = false; return "X8"; }
                  if (s < 0) continue; { g.live[BUFSLOT] = true; static const char *n[] = {"tolatin1x", "hexdec", "b64dec", "toutf8", "tolatin1"}; return "K8," + S(s) + "," + n[rng.below(5)]; }
         default: if (d < 0 || s < 0 || o < 0) continue; { unsigned w = (unsigned)rng.below(3);
@@ -501,6 +512,8 @@ static void gen(Emitter &em, const Options &opt) {
             for (const char *bad : {"80", "c3", "e282", "ff", "eda0", "f08080"}) {
                 body.push_back("S0,c:" + pre + bad);
                 body.push_back("U8:" + pre + bad + ";b0,c"); body.push_back("U8:" + pre + bad + ";B0,c"); body.push_back("U8:" + pre + bad + ";b0,s"); body.push_back("U8:" + pre + bad + ";b0,a");
+                body.push_back("U8:" + pre + bad + ";h0"); body.push_back("U8:" + pre + bad + ";H0"); body.push_back("U8:" + pre + bad + ";G3,c;X8"); body.push_back("U8:" + pre + bad + ";g3,c;X8");
+                body.push_back("U8:" + pre + bad + ";G3,s"); body.push_back("U8:" + pre + bad + ";G3,a;X8");
                 body.push_back("N2:" + pre + bad + ";p0,2"); body.push_back("N2:" + pre + bad + ";K3,0,plusc,2"); body.push_back("N2:" + pre + bad + ";K3,2,fromutf8c");
             }
             for (const char *bad : {"d800", "0041dc00", "dbff0041"}) { body.push_back(std::string("T0,c,16:") + bad); body.push_back(std::string("E0,c,16:") + bad); body.push_back(std::string("T0,s,16:") + bad); }
